@@ -27,10 +27,11 @@ def is_covered_by(op: Operation, sync_op: Operation) -> bool:
     return False
 
 
-def innermost_common_for(a: Operation, b: Operation) -> scf.ForOp | None:
+def innermost_common_for(a: Operation, b: Operation) -> Operation | None:
     """
-    The innermost scf.for that contains both operations: its back edge leads
-    from the later of the two operations to the earlier one.
+    The terminator in front of the back edge of the innermost loop (scf.for or
+    scf.while) that contains both operations: the back edge leads from the later
+    of the two operations to the earlier one.
     """
     ancestors_of_b: list[Operation] = []
     parent = b.parent_op()
@@ -40,7 +41,10 @@ def innermost_common_for(a: Operation, b: Operation) -> scf.ForOp | None:
     parent = a.parent_op()
     while parent is not None:
         if isinstance(parent, scf.ForOp) and parent in ancestors_of_b:
-            return parent
+            return parent.body.block.last_op
+        if isinstance(parent, scf.WhileOp) and parent in ancestors_of_b:
+            # every further iteration passes the end of the "do" region
+            return parent.after_region.block.last_op
         parent = parent.parent_op()
     return None
 
@@ -84,15 +88,15 @@ class InsertSyncBarrier(ModulePass):
 
                     if dispatch_to_dm(op_in_module, ctx) and not dispatch_to_dm(op_use.operation, ctx):
                         ops_to_sync.append(op_use.operation)
-                        if (for_op := innermost_common_for(op_in_module, op_use.operation)) is not None:
-                            assert isinstance(for_op.body.block.last_op, scf.YieldOp)
-                            ops_to_sync.append(for_op.body.block.last_op)
+                        if (loop_end := innermost_common_for(op_in_module, op_use.operation)) is not None:
+                            assert isinstance(loop_end, scf.YieldOp)
+                            ops_to_sync.append(loop_end)
 
                     if dispatch_to_compute(op_in_module, ctx) and not dispatch_to_compute(op_use.operation, ctx):
                         ops_to_sync.append(op_use.operation)
-                        if (for_op := innermost_common_for(op_in_module, op_use.operation)) is not None:
-                            assert isinstance(for_op.body.block.last_op, scf.YieldOp)
-                            ops_to_sync.append(for_op.body.block.last_op)
+                        if (loop_end := innermost_common_for(op_in_module, op_use.operation)) is not None:
+                            assert isinstance(loop_end, scf.YieldOp)
+                            ops_to_sync.append(loop_end)
 
                     if isinstance(op_use.operation, DeallocOp):
                         # if the operation is a sync op, clear the list
